@@ -72,12 +72,25 @@ def seqSpec : Suite where
 
 /-! ## the program texts the models were transcribed from (T-facts) -/
 
+/-- `Push` / `Pop` with the yield points of the controlled scheduler: every atomic operation is preceded by
+exactly one, named after the program counter of `MV.Model.LFQueue` it corresponds to (suite `lfq-sched`) -/
+def hookedPush : String :=
+  "node=new(value); loop{ @lfq.pu.tail; tail=load(q.tail); @lfq.pu.next; next=load(tail.next); @lfq.pu.re; " ++
+  "if(tail==load(q.tail)){ if(next==nil){ @lfq.pu.cas; if(cas(tail.next,next,node)){ @lfq.pu.swing; " ++
+  "cas(q.tail,tail,node); return } } else{ @lfq.pu.help; cas(q.tail,tail,next) } } }"
+def hookedPop : String :=
+  "loop{ @lfq.po.head; head=load(q.head); @lfq.po.tail; tail=load(q.tail); @lfq.po.next; next=load(head.next); " ++
+  "@lfq.po.re; if(head==load(q.head)){ if(head==tail){ if(next==nil){ return nil }; @lfq.po.help; " ++
+  "cas(q.tail,tail,next) } else{ value=next.value; @lfq.po.cas; if(cas(q.head,head,next)){ return value } } } }"
+
 def facts : Suite where
   σ := Unit
   init := ()
   step _ toks := match toks with
     | ["facts", "lock_free.go", "Push"] => ((), LFQueue.pushProg)
     | ["facts", "lock_free.go", "Pop"] => ((), LFQueue.popProg)
+    | ["hooked", "lock_free.go", "Push"] => ((), hookedPush)
+    | ["hooked", "lock_free.go", "Pop"] => ((), hookedPop)
     | ["facts", "mpsc.go", "Push"] => ((), MPSC.pushProg)
     | ["facts", "mpsc.go", "Pop"] => ((), MPSC.popProg)
     | ["facts", "mpsc.go", "Empty"] => ((), MPSC.emptyProg)
